@@ -58,4 +58,24 @@ fn main() {
         }
         drop(t2); drop(ks); drop(db); let _ = std::fs::remove_dir_all(dir);
     }
+    // F13-ingest: an ingested tombstone evicted at the last level, journal still holds the put
+    {
+        let dir = std::path::PathBuf::from("/dev/shm/verif-scratch-f13i");
+        let _ = std::fs::remove_dir_all(&dir);
+        {
+            let db = fjall::Database::builder(&dir).open().unwrap();
+            let ks = db.keyspace("a", KeyspaceCreateOptions::default).unwrap();
+            ks.insert("x", "v").unwrap();
+            ks.rotate_memtable_and_wait().unwrap();
+            let mut ing = ks.start_ingestion().unwrap();
+            ing.write_tombstone("x").unwrap();
+            ing.finish().unwrap();
+            ks.major_compact().unwrap();
+            println!("F13-ingest: before reopen x = {:?}", ks.get("x").unwrap().is_some());
+        }
+        let db = fjall::Database::builder(&dir).open().unwrap();
+        let ks = db.keyspace("a", KeyspaceCreateOptions::default).unwrap();
+        println!("F13-ingest: after reopen x = {:?} (deleted key is back = {})", ks.get("x").unwrap().is_some(), ks.get("x").unwrap().is_some());
+        drop(ks); drop(db); let _ = std::fs::remove_dir_all(dir);
+    }
 }
